@@ -648,11 +648,35 @@ class World:
         xb = m.xll + (c1 + 0.5) * m.cellsize
         ya = m.yll + (rb0 + 0.5) * m.cellsize
         yb = m.yll + (rb1 + 0.5) * m.cellsize
-        self.log.ev("clip", gid, c0, c1, rb0, rb1)
+        # the parent may carry an allowed data range that all its cells
+        # satisfy (set on a clone: pool models stay as they are)
+        bounded = None
+        src = g
+        if cs.flip("parent_has_data_range", 30):
+            flat = m.data.reshape(-1)
+            fin = flat[flat == flat] if m.dtype.kind == "f" else flat
+            if len(fin):
+                bounded = cs.choice("which_bound", ["min", "max"])
+                with warnings.catch_warnings():
+                    warnings.simplefilter("ignore")
+                    try:
+                        src = g.clone()
+                        if bounded == "min":
+                            src.mindata = fin.min()
+                        else:
+                            src.maxdata = fin.max()
+                    except Exception:
+                        src, bounded = g, None
+                if bounded is not None and not payload_eq(
+                        np.asarray(src.data), m.data, m.dtype):
+                    src, bounded = g, None     # the bound itself moved cells
+        self.log.ev("clip", gid, c0, c1, rb0, rb1, bounded)
+        if bounded:
+            self.ctx.hit("probe.clip_of_parent_with_data_range")
         with warnings.catch_warnings():
             warnings.simplefilter("ignore")
             try:
-                c = g.clip(xa, ya, xb, yb)
+                c = src.clip(xa, ya, xb, yb)
             except Exception as e:
                 raise Violation("clip_failed", f"grid#{gid} clip to centres of "
                                 f"cols {c0}-{c1}, rows-from-bottom {rb0}-{rb1} "
@@ -680,6 +704,42 @@ class World:
         self.ctx.hit("probe.clip")
         if len(self.grids) < 5:
             self.add_grid(c, cm)
+
+    def op_huge_clip(self):
+        """A raster of more than 2^31 cells (one byte each, never touched
+        except for a few cells, so it costs no memory): cell numbers beyond
+        32 bits in clip, and the cloned / clipped values."""
+        from hydrodiy.gis.grid import Grid
+        cs = self.cs
+        shape = cs.choice("shape", [(46342, 46342), (3, 2 ** 30 + 7),
+                                    (2 ** 31 + 9, 1)])
+        nr, nc = shape
+        dtn = cs.choice("dtype", ["int8", "uint8"])
+        self.log.ev("huge_clip", shape, dtn)
+        self.ctx.hit("probe.grid_with_more_than_2^31_cells")
+        g = Grid("huge", nc, nr, cellsize=1.0, xllcorner=0.0, yllcorner=0.0,
+                 dtype=getattr(np, dtn), nodata=0)
+        h = min(3, nr)
+        w = min(4, nc)
+        r0 = nr - h - cs.draw("up", min(3, nr - h + 1))   # rows from the top
+        c0 = nc - w - cs.draw("left", min(3, nc - w + 1))
+        vals = (np.arange(h * w).reshape(h, w) + 1).astype(dtn)
+        g.data[r0:r0 + h, c0:c0 + w] = vals
+        xa, xb = c0 + 0.5, c0 + w - 0.5
+        ya, yb = (nr - 1 - (r0 + h - 1)) + 0.5, (nr - 1 - r0) + 0.5
+        with warnings.catch_warnings():
+            warnings.simplefilter("ignore")
+            try:
+                c = g.clip(xa, ya, xb, yb)
+            except Exception as e:
+                raise Violation("clip_failed", f"clip near the end of a "
+                                f"{nr}x{nc} raster raised {e!r}", "huge_clip")
+        cm = GModel(h, w, 1.0, float(c0), float(nr - 1 - (r0 + h - 1)),
+                    dtn, 0, vals)
+        check_grid(c, cm, f"clip near the end of a {nr}x{nc} raster",
+                   "huge_clip")
+        del g
+        self.compared = True
 
     def op_zip_twice(self):
         """Another tool packs one saved pair into an archive and it is read;
@@ -944,7 +1004,7 @@ OPS = [("new", 8, None), ("mutate", 10, "g"), ("save", 9, "g"),
        ("zip_twice", 3, "s"), ("widen_dtype", 2, "g"),
        ("rejected_clone", 2, "g"), ("load_via_symlink", 2, "s"),
        ("restart", 2, "s"), ("cat_new", 3, None), ("cat_delineate", 6, "c"),
-       ("cat_dict", 5, "c"), ("cat_clone", 2, "c")]
+       ("cat_dict", 5, "c"), ("cat_clone", 2, "c"), ("huge_clip", 1, None)]
 
 
 def run(cs, log, ctx):
